@@ -18,19 +18,19 @@ Correspondence skeleton ↔ model labels:
 namespace Ekit.Cond.Skel
 
 def expected_Cond_Broadcast : String :=
-  "Call(checkCopy);Call(checkFirstUse);Call(notifyList.notifyAll)"
+  "Call(checkCopy);Call(checkFirstUse);Call(notifyList.notifyAll);return"
 
 def expected_Cond_Signal : String :=
-  "Call(checkCopy);Call(checkFirstUse);Call(notifyList.notifyOne)"
+  "Call(checkCopy);Call(checkFirstUse);Call(notifyList.notifyOne);return"
 
 def expected_Cond_Wait : String :=
   "Call(checkCopy);Call(checkFirstUse);Call(notifyList.add);Unlock(L);defer{Lock(L)};Call(notifyList.wait);return"
 
 def expected_Cond_checkCopy : String :=
-  "atomic.LoadPointer(checker);atomic.CompareAndSwapPointer(checker);atomic.LoadPointer(checker);if(atomic.LoadPointer(&recv.checker) != UnsafePointer(recv) && !atomic.CompareAndSwapPointer(&recv.checker, nil, UnsafePointer(recv)) && atomic.LoadPointer(&recv.checker) != UnsafePointer(recv)){}"
+  "atomic.LoadPointer(checker);atomic.CompareAndSwapPointer(checker);atomic.LoadPointer(checker);if(atomic.LoadPointer(&recv.checker) != UnsafePointer(recv) && !atomic.CompareAndSwapPointer(&recv.checker, nil, UnsafePointer(recv)) && atomic.LoadPointer(&recv.checker) != UnsafePointer(recv)){};else{return}"
 
 def expected_Cond_checkFirstUse : String :=
-  "func{R(notifyList);if(recv.notifyList == nil){W(notifyList)}};OnceDo(once)"
+  "func{R(notifyList);if(recv.notifyList == nil){W(notifyList);return};else{return}};OnceDo(once);return"
 
 def expected_NewCond : String :=
   "return"
@@ -39,7 +39,7 @@ def expected_chanList_alloc : String :=
   "Get(pool);return"
 
 def expected_chanList_free : String :=
-  "Put(pool)"
+  "Put(pool);return"
 
 def expected_chanList_front : String :=
   "R(sentinel.next);return"
@@ -48,10 +48,10 @@ def expected_chanList_len : String :=
   "R(size);return"
 
 def expected_chanList_pushBack : String :=
-  "R(sentinel);R(sentinel.prev);W(sentinel.prev.next);W(sentinel.prev);R(size);W(size)"
+  "R(sentinel);R(sentinel.prev);W(sentinel.prev.next);W(sentinel.prev);R(size);W(size);return"
 
 def expected_chanList_remove : String :=
-  "R(size);W(size)"
+  "R(size);W(size);return"
 
 def expected_newChanList : String :=
   "func{return};return"
@@ -60,24 +60,24 @@ def expected_newNotifyList : String :=
   "return"
 
 def expected_noCopy_Lock : String :=
-  ""
+  "return"
 
 def expected_noCopy_Unlock : String :=
-  ""
+  "return"
 
 def expected_notifyList_add : String :=
   "Lock(mu);defer{Unlock(mu)};Call(list.alloc);Call(list.pushBack);return"
 
 def expected_notifyList_notifyAll : String :=
-  "Lock(mu);defer{Unlock(mu)};for(recv.list.len() != 0){Call(list.len);Call(notifyNext)}"
+  "Lock(mu);defer{Unlock(mu)};for(recv.list.len() != 0){Call(list.len);Call(notifyNext);continue};return"
 
 def expected_notifyList_notifyNext : String :=
-  "Call(list.front);Call(list.remove);Send(ch)"
+  "Call(list.front);Call(list.remove);Send($1);return"
 
 def expected_notifyList_notifyOne : String :=
-  "Lock(mu);defer{Unlock(mu)};Call(list.len);if(recv.list.len() == 0){return};Call(notifyNext)"
+  "Lock(mu);defer{Unlock(mu)};Call(list.len);if(recv.list.len() == 0){return};else{Call(notifyNext);return}"
 
 def expected_notifyList_wait : String :=
-  "defer{Call(list.free)};select{arm[ctx.Done;Recv(ctx.Done())]{Lock(mu);defer{Unlock(mu)};select{arm[Recv(ch)]{Call(list.len);if(recv.list.len() != 0){Call(notifyNext)}};default{Call(list.remove)}};ctx.Err;return};arm[Recv(ch)]{return}}"
+  "defer{Call(list.free)};select{arm[ctx.Done;Recv(ctx.Done())]{Lock(mu);defer{Unlock(mu)};select{arm[Recv($1)]{Call(list.len);if(recv.list.len() == 0){};else{Call(notifyNext)}};default{Call(list.remove)}};ctx.Err;return};arm[Recv($1)]{return}};return"
 
 end Ekit.Cond.Skel
